@@ -143,10 +143,26 @@ class fixed_format_file(object):
         fmt = self.specification[linetype][1]
         strs = []
         for val , f in zip(vals , fmt):
-            if (val is not None) and (f[-1] != 'x'): valstr = ('%%%s'%f) % val
-            else: valstr = ' ' * self.spec_width[f[0:-1]] # blank
+            w = self.spec_width[f[0:-1]]
+            if (val is not None) and (f[-1] != 'x'):
+                valstr = ('%%%s'%f) % val
+                if len(valstr) > w: valstr = self.fit_value(val, f, w)
+            else: valstr = ' ' * w # blank
             strs.append(valstr)
         return ''.join(strs)
+
+    def fit_value(self, val, f, w):
+        """Formats a value too wide for its field with format f and width
+        w.  Floats are written with reduced precision; anything that
+        still does not fit raises an exception, rather than displacing
+        the rest of the record."""
+        fmt, typ = f[:-1], f[-1]
+        if typ in ['e', 'f', 'g'] and '.' in fmt:
+            width, prec = fmt.split('.')
+            for p in range(int(prec) - 1, -1, -1):
+                valstr = ('%%%s.%d%s' % (width, p, typ)) % val
+                if len(valstr) <= w: return valstr
+        raise ValueError("Value %s does not fit format '%s'." % (repr(val), f))
 
     def read_values(self, linetype):
         """Reads a line from the file, parses it and returns the values."""
